@@ -63,6 +63,14 @@ def make(kind, p):
             mm.add_resource(stub_register(w, acc), name=f"r{i}", addr=addr, size=size)
         x = csr.Multiplexer(mm, shadow_overlaps=so)
         return x, [x.bus]
+    if kind == "mux_many":
+        n, w, so = p
+        mm = MemoryMap(addr_width=8, data_width=8)
+        for i in range(n):
+            mm.add_resource(stub_register(8 * w, "rw" if i % 3 else "r"), name=f"r{i}", size=w)
+        mm.add_resource(stub_register(8 * 64, "rw"), name="wide", size=64)          # one register of 64 bus words
+        x = csr.Multiplexer(mm, shadow_overlaps=so)
+        return x, [x.bus]
     if kind == "bridge":
         import contextlib
         b = csr.Builder(addr_width=4, data_width=8)
@@ -368,6 +376,9 @@ def configs(tier):
             for a in regopts[::(11 if quick else 7)]:
                 for b in regopts[::(7 if quick else 5)]:
                     T.append(("mux", ((a, b), 3, 2, al, so)))
+    # many registers / many bus words (64 is where a radix-4 reduction tree first has three full levels)
+    for n, w, so in ((17, 1, None), (63, 1, None), (64, 1, None), (65, 1, 0), (100, 1, None)):
+        T.append(("mux_many", (n, w, so)))
     for so in (-1, "x", 1.5, 3, 7, True):
         for a, b in ((regopts[0], regopts[20]), (regopts[37], regopts[5])):
             T.append(("mux", ((a, b), 3, 2, 0, so)))
